@@ -665,3 +665,25 @@ pub fn guess_is_pin(ty: &syn::Type) -> bool {
 
     false
 }
+
+/// Replace every `self` value token (at any nesting depth) by the given tokens.
+pub fn replace_self_value(
+    stream: proc_macro2::TokenStream,
+    replacement: &proc_macro2::TokenStream,
+) -> proc_macro2::TokenStream {
+    stream
+        .into_iter()
+        .flat_map(|tree| match tree {
+            proc_macro2::TokenTree::Ident(ident) if ident == "self" => replacement.clone(),
+            proc_macro2::TokenTree::Group(group) => {
+                let mut replaced = proc_macro2::Group::new(
+                    group.delimiter(),
+                    replace_self_value(group.stream(), replacement),
+                );
+                replaced.set_span(group.span());
+                proc_macro2::TokenTree::Group(replaced).into()
+            }
+            other => other.into(),
+        })
+        .collect()
+}
